@@ -154,7 +154,15 @@ class GhostRNG(object):
     def integers(self, low, high=None, size=None, **kw):
         c = self._next('integers')
         if size is not None:
-            raise sym.Unsupported('integers with size')
+            shape = self._shape(size)
+            if not all(sp.sympify(d_).is_Integer for d_ in shape):
+                raise sym.Unsupported('integers with symbolic size')
+            out = _np.empty(tuple(int(d_) for d_ in shape), dtype=object)
+            for idx in _np.ndindex(*out.shape):
+                e_ = mk(UI(self.stream, c, w(low), w(high) if high is not None else sp.Integer(0), *idx))
+                e_.npint = True
+                out[idx] = e_
+            return out
         r = mk(UI(self.stream, c, w(low), w(high) if high is not None else sp.Integer(0)))
         r.npint = True          # numpy returns numpy.int64, which is *not* an instance of the builtin int
         return r
